@@ -458,6 +458,80 @@ def unwrap(wk, d):
         return True, d[0]
 
 
+from pane.converters import Converter as _Conv
+
+
+class _Unrelated(_Conv):
+    """a custom converter for a type that occurs nowhere: it must change nothing"""
+    def expected(self, plural=False):
+        return 'bytes'
+
+    def try_convert(self, val):
+        raise ParseInterrupt()
+
+    def collect_errors(self, val):
+        return pane.errors.WrongTypeError('bytes', val)
+
+    def into_data(self, val):
+        return val
+
+
+_UNREL = {bytearray: _Unrelated()}
+from pane.convert import ConverterHandlers as _CH
+_UNREL_H = _CH.make(_UNREL)
+
+
+class WHoldC(PaneBase, custom=_UNREL):
+    """as WHold, with (unrelated) class-level custom converters in effect"""
+    f_ext: t.Optional[TY[('s', 'ext')]] = None
+    f_adj: t.Union[int, TY[('s', 'adj')], None] = None
+
+
+WRAPPED_H = {}
+for _ln in LAYOUTS:
+    _T = TY[('s', _ln)]
+    WRAPPED_H[_ln] = (make_converter(t.Optional[_T], _UNREL_H), make_converter(t.Union[int, _T, str], _UNREL_H))
+make_converter(WHoldC)
+
+
+@obligation(pre="1 <= ln <= 2 and 0 <= hk <= 2 and 1 <= tk <= 3", witnesses=(0,), timeout=200)
+def body_wrapped_custom(ln: int, hk: int, tk: int, i: int) -> int:
+    """... also while custom converters (for an unrelated type) are in effect, passed to the call or declared on the enclosing class"""
+    l = 'ext' if ln == 1 else 'adj'
+    cls = variant_of('s', tk)
+    x = cls.make_unchecked(a='q') if cls is VY else cls.make_unchecked(a=i)
+    try:
+        if hk == 2:
+            fname = 'f_ext' if ln == 1 else 'f_adj'
+            d = WHoldC.make_unchecked(**{fname: x}).into_data()
+            inner = d[fname]
+            got = getattr(WHoldC.from_data(d), fname)
+        else:
+            conv = WRAPPED_H[l][0] if hk == 0 else WRAPPED_H[l][1]
+            inner = conv.into_data(x)
+            got = conv.convert(inner)
+    except ConvertError:
+        return 9
+    except Exception as e:
+        if crosshair_exc(e):
+            raise
+        return 10
+    if not shape_ok('s', l, cls, inner):
+        return 7
+    if type(got) is not cls or not eqv(got, x):
+        return 9
+    return 0
+
+
+for _ln in (1, 2):
+    for _hk in range(3):
+        for _tk in (1, 2, 3):
+            try:
+                body_wrapped_custom(_ln, _hk, _tk, 1)
+            except Exception:
+                pass
+
+
 @obligation(pre="0 <= ln <= 2 and 0 <= wk <= 6 and 1 <= tk <= 3", witnesses=(0,), timeout=200)
 def body_wrapped(ln: int, wk: int, tk: int, i: int) -> int:
     """a tagged union inside Optional / Union / Dict / Tuple / a dataclass field (wk 0-4), and inside a container that is itself a union member (wk 5, 6), is written in ITS layout, and what is written reads back"""
